@@ -46,14 +46,17 @@ Theorem C07_server_send_split_refuted :
   exists c1 c2, c1 ++ c2 = stop_command /\ c1 <> [] /\ c2 <> [] /\
     calls (actions_of (ex_send [RChunk c1; RChunk c2])) = [].
 Proof. exact send_split_chunk_ignored. Qed.
+Print Assumptions C07_server_send_split_refuted.
 Theorem C07_server_send_embedded_refuted :
   calls (actions_of (ex_send [RChunk (122 :: stop_command)])) = [].
 Proof. exact send_embedded_chunk_ignored. Qed.
+Print Assumptions C07_server_send_embedded_refuted.
 
 (* the acknowledgement makes the handler call Server.stop *)
 Theorem C07_server_ack_stops :
   stop_block shutdown_ack = [Call stop_name []; Send shutdown_ack; Stop].
-Proof. reflexivity. Qed.
+Proof. exact stop_block_ack. Qed.
+Print Assumptions C07_server_ack_stops.
 
 (* non-vacuity *)
 Example C07_server_ex_answers : stop_answers unit ex_scall shutdown_ack.
